@@ -837,3 +837,211 @@ Example C19_area_3d_corner_example :
   area_3d_bounded 2 9 9 9 0 10 0 10 0 10
   = 4 * PI * (2 * 2) - 3 * sphere_cap_area 1 2 + 3 * sphere_edge_area 1 1 2 - sphere_corner_area 1 1 1 2.
 Proof. exact area_3d_corner_example. Qed.
+
+(* ================================================================== *)
+(* route T for the pair-correlation functions themselves               *)
+(* ================================================================== *)
+(* Gen/paircorr.v is regenerated from trackpy/static.py by tools/py2coq_paircorr.py on every run:
+   pair_correlation_2d / pair_correlation_3d statement by statement -- the boundary / bounding-box
+   branch, the filter of the particles outside the boundary, the default density, p_indices (None: all
+   particles, or the drawn sample when fraction < 1; a given list), r_edges, the kd-tree query, the
+   MemoryError and RuntimeError guards, the mask dist > 0 & isfinite, the handle_edge branch (pos
+   repeated: the edge measure at the REFERENCE particle), np.histogram with weights 1/arclen, the
+   normalisation by ndensity * len(pos) * dr -- over a record of named numpy / pandas / scipy primitives.
+   PairCorrI (Model/PyPairCorr.v) interprets the record: floats as exact rationals, distances squared,
+   the query as "all particles strictly within cutoff of each reference particle, padded with inf to
+   max_p_count columns", arc = the edge measure (parameter, as in the hand-written model), pi_q = the
+   float np.pi (any rational), oracle = np.random.randint, scale_sqrt c d2 = c * sqrt d2 (left open). *)
+From TP Require Import Model.PyPairCorr Gen.paircorr Proofs.StaticPairCorrGen.
+Open Scope Q_scope.
+
+(* The generated pair_correlation_2d, wherever it does not raise, IS the hand-written model:
+   r_edges are the nbins + 1 edges k * dr; g_r = pair_correlation_sel with the reference particles
+   gen_idx (p_indices if given, else all particles if fraction == 1, else the drawn sample), the
+   edge measure arc at the reference particle (handle_edge) or the free circle 2 pi r.
+   With p_indices = None and fraction = 1 this is pair_correlation (C19_gr_sel_all). *)
+Theorem C19_gen_gr_2d_is_model :
+  forall (arc : Q -> list Q -> option Q) (pi_q : Q) (oracle : Z -> Z -> Z -> list nat) (scale_sqrt : Q -> Q -> option Q)
+         (feat : list qpt) (cutoff fraction dr : Q) (p_indices : option (list nat)) (ndensity : option Q)
+         (boundary : option (Q * Q * Q * Q)) (handle_edge : bool) (max_rel_ndensity : Q)
+         (r_edges : list Q) (g : list (option Q)),
+  List.Forall (fun p => List.length p = 2%nat) feat -> 0 < dr -> 0 <= cutoff ->
+  py_pair_correlation_2d (PairCorrI arc pi_q oracle scale_sqrt) feat cutoff fraction dr p_indices ndensity boundary
+                         handle_edge max_rel_ndensity = Ok (r_edges, g) ->
+  let b := option_map box_of4 boundary in
+  r_edges = List.map (fun k => inject_Z (Z.of_nat k) * dr) (List.seq 0 (S (nbins cutoff dr))) /\
+  g = pair_correlation_sel (if handle_edge then arc else fun d2 _ => scale_sqrt (inject_Z 2 * pi_q) d2) 2 b feat
+        (gen_idx oracle fraction p_indices (List.length (kept b feat))) ndensity cutoff dr.
+Proof. exact py_pair_correlation_2d_eq. Qed.
+Print Assumptions C19_gen_gr_2d_is_model.
+
+(* pair_correlation_3d likewise; without edge handling the measure is 4 pi r^2, rational in the squared distance *)
+Theorem C19_gen_gr_3d_is_model :
+  forall (arc : Q -> list Q -> option Q) (pi_q : Q) (oracle : Z -> Z -> Z -> list nat) (scale_sqrt : Q -> Q -> option Q)
+         (feat : list qpt) (cutoff fraction dr : Q) (p_indices : option (list nat)) (ndensity : option Q)
+         (boundary : option (Q * Q * Q * Q * Q * Q)) (handle_edge : bool) (max_rel_ndensity : Q)
+         (r_edges : list Q) (g : list (option Q)),
+  List.Forall (fun p => List.length p = 3%nat) feat -> 0 < dr -> 0 <= cutoff ->
+  py_pair_correlation_3d (PairCorrI arc pi_q oracle scale_sqrt) feat cutoff fraction dr p_indices ndensity boundary
+                         handle_edge max_rel_ndensity = Ok (r_edges, g) ->
+  let b := option_map box_of6 boundary in
+  r_edges = List.map (fun k => inject_Z (Z.of_nat k) * dr) (List.seq 0 (S (nbins cutoff dr))) /\
+  g = pair_correlation_sel (if handle_edge then arc else fun d2 _ => Some (inject_Z 4 * pi_q * d2)) 3 b feat
+        (gen_idx oracle fraction p_indices (List.length (kept b feat))) ndensity cutoff dr.
+Proof. exact py_pair_correlation_3d_eq. Qed.
+Print Assumptions C19_gen_gr_3d_is_model.
+
+(* C19_gr_sel_is_normalised_corrected_histogram for the generated functions: bin k of the returned g_r is
+   the sum, over the ordered pairs (reference particle p, particle q) with 0 < |p - q| < cutoff and
+   k dr <= |p - q| < (k+1) dr, of 1 / measure(|p - q|, wall distances of p), divided by
+   density * number of reference particles * dr (NaN if a measure is NaN). *)
+Theorem C19_gen_gr_2d_is_normalised_corrected_histogram :
+  forall (arc : Q -> list Q -> option Q) (pi_q : Q) (oracle : Z -> Z -> Z -> list nat) (scale_sqrt : Q -> Q -> option Q)
+         (feat : list qpt) (cutoff fraction dr : Q) (p_indices : option (list nat)) (ndensity : option Q)
+         (boundary : option (Q * Q * Q * Q)) (handle_edge : bool) (max_rel_ndensity : Q)
+         (r_edges : list Q) (g : list (option Q)) (k : nat),
+  List.Forall (fun p => List.length p = 2%nat) feat -> 0 < dr -> 0 <= cutoff ->
+  py_pair_correlation_2d (PairCorrI arc pi_q oracle scale_sqrt) feat cutoff fraction dr p_indices ndensity boundary
+                         handle_edge max_rel_ndensity = Ok (r_edges, g) ->
+  (k < nbins cutoff dr)%nat ->
+  let ob := option_map box_of4 boundary in
+  let b := match ob with Some bx => bx | None => bbox 2 feat end in
+  let parts := kept ob feat in
+  let refs := select (gen_idx oracle fraction p_indices (List.length parts)) parts in
+  let rho := match ndensity with Some r => r | None => ndens_default (List.length parts) b end in
+  let measure := if handle_edge then arc else fun d2 (_ : list Q) => scale_sqrt (inject_Z 2 * pi_q) d2 in
+  List.nth_error g k
+  = Some (finish (rho * inject_Z (Z.of_nat (List.length refs)) * dr)
+      (List.fold_left addw
+         (List.map (fun pq => option_map Qinv (measure (Qred (qd2 (fst pq) (snd pq))) (walls (fst pq) b)))
+              (List.filter (fun pq => in_range (cutoff * cutoff) (fst pq) (snd pq)
+                                 && (Qle_bool (edge2 dr k) (qd2 (fst pq) (snd pq))
+                                     && Qltb (qd2 (fst pq) (snd pq)) (edge2 dr (S k))))
+                      (List.list_prod refs parts)))
+         (0%nat, 0))).
+Proof. exact py_gr_2d_spec. Qed.
+Print Assumptions C19_gen_gr_2d_is_normalised_corrected_histogram.
+
+Theorem C19_gen_gr_3d_is_normalised_corrected_histogram :
+  forall (arc : Q -> list Q -> option Q) (pi_q : Q) (oracle : Z -> Z -> Z -> list nat) (scale_sqrt : Q -> Q -> option Q)
+         (feat : list qpt) (cutoff fraction dr : Q) (p_indices : option (list nat)) (ndensity : option Q)
+         (boundary : option (Q * Q * Q * Q * Q * Q)) (handle_edge : bool) (max_rel_ndensity : Q)
+         (r_edges : list Q) (g : list (option Q)) (k : nat),
+  List.Forall (fun p => List.length p = 3%nat) feat -> 0 < dr -> 0 <= cutoff ->
+  py_pair_correlation_3d (PairCorrI arc pi_q oracle scale_sqrt) feat cutoff fraction dr p_indices ndensity boundary
+                         handle_edge max_rel_ndensity = Ok (r_edges, g) ->
+  (k < nbins cutoff dr)%nat ->
+  let ob := option_map box_of6 boundary in
+  let b := match ob with Some bx => bx | None => bbox 3 feat end in
+  let parts := kept ob feat in
+  let refs := select (gen_idx oracle fraction p_indices (List.length parts)) parts in
+  let rho := match ndensity with Some r => r | None => ndens_default (List.length parts) b end in
+  let measure := if handle_edge then arc else fun d2 (_ : list Q) => Some (inject_Z 4 * pi_q * d2) in
+  List.nth_error g k
+  = Some (finish (rho * inject_Z (Z.of_nat (List.length refs)) * dr)
+      (List.fold_left addw
+         (List.map (fun pq => option_map Qinv (measure (Qred (qd2 (fst pq) (snd pq))) (walls (fst pq) b)))
+              (List.filter (fun pq => in_range (cutoff * cutoff) (fst pq) (snd pq)
+                                 && (Qle_bool (edge2 dr k) (qd2 (fst pq) (snd pq))
+                                     && Qltb (qd2 (fst pq) (snd pq)) (edge2 dr (S k))))
+                      (List.list_prod refs parts)))
+         (0%nat, 0))).
+Proof. exact py_gr_3d_spec. Qed.
+Print Assumptions C19_gen_gr_3d_is_normalised_corrected_histogram.
+
+(* C19_gr_sel_permutation for the generated functions: the particles listed in another order, the same
+   reference particles (wherever they now stand, in any order): two runs that do not raise return the
+   same r_edges and the same g_r. *)
+Theorem C19_gen_gr_2d_permutation :
+  forall (arc : Q -> list Q -> option Q) (pi_q : Q) (oracle : Z -> Z -> Z -> list nat) (scale_sqrt : Q -> Q -> option Q)
+         (feat feat' : list qpt) (cutoff fraction dr : Q) (idx idx' : list nat) (ndensity : option Q)
+         (boundary : option (Q * Q * Q * Q)) (handle_edge : bool) (max_rel_ndensity : Q)
+         (r_edges : list Q) (g : list (option Q)) (r_edges' : list Q) (g' : list (option Q)),
+  List.Forall (fun p => List.length p = 2%nat) feat -> 0 < dr -> 0 <= cutoff ->
+  Permutation feat feat' ->
+  (let ob := option_map box_of4 boundary in Permutation (select idx (kept ob feat)) (select idx' (kept ob feat'))) ->
+  py_pair_correlation_2d (PairCorrI arc pi_q oracle scale_sqrt) feat cutoff fraction dr (Some idx) ndensity boundary
+                         handle_edge max_rel_ndensity = Ok (r_edges, g) ->
+  py_pair_correlation_2d (PairCorrI arc pi_q oracle scale_sqrt) feat' cutoff fraction dr (Some idx') ndensity boundary
+                         handle_edge max_rel_ndensity = Ok (r_edges', g') ->
+  r_edges' = r_edges /\ g' = g.
+Proof. exact py_gr_2d_permutation. Qed.
+Print Assumptions C19_gen_gr_2d_permutation.
+
+Theorem C19_gen_gr_3d_permutation :
+  forall (arc : Q -> list Q -> option Q) (pi_q : Q) (oracle : Z -> Z -> Z -> list nat) (scale_sqrt : Q -> Q -> option Q)
+         (feat feat' : list qpt) (cutoff fraction dr : Q) (idx idx' : list nat) (ndensity : option Q)
+         (boundary : option (Q * Q * Q * Q * Q * Q)) (handle_edge : bool) (max_rel_ndensity : Q)
+         (r_edges : list Q) (g : list (option Q)) (r_edges' : list Q) (g' : list (option Q)),
+  List.Forall (fun p => List.length p = 3%nat) feat -> 0 < dr -> 0 <= cutoff ->
+  Permutation feat feat' ->
+  (let ob := option_map box_of6 boundary in Permutation (select idx (kept ob feat)) (select idx' (kept ob feat'))) ->
+  py_pair_correlation_3d (PairCorrI arc pi_q oracle scale_sqrt) feat cutoff fraction dr (Some idx) ndensity boundary
+                         handle_edge max_rel_ndensity = Ok (r_edges, g) ->
+  py_pair_correlation_3d (PairCorrI arc pi_q oracle scale_sqrt) feat' cutoff fraction dr (Some idx') ndensity boundary
+                         handle_edge max_rel_ndensity = Ok (r_edges', g') ->
+  r_edges' = r_edges /\ g' = g.
+Proof. exact py_gr_3d_permutation. Qed.
+Print Assumptions C19_gen_gr_3d_permutation.
+
+(* C19_gr_sel_translation for the generated functions: particles and boundary translated by (tx, ty)
+   [(tx, ty, tz)]; p_indices given (in range), None with fraction = 1, or drawn (the oracle is asked the
+   same question: the number of particles inside the boundary is the same). *)
+Theorem C19_gen_gr_2d_translation :
+  forall (arc : Q -> list Q -> option Q) (pi_q : Q) (oracle : Z -> Z -> Z -> list nat) (scale_sqrt : Q -> Q -> option Q)
+         (tx ty : Q) (feat : list qpt) (cutoff fraction dr : Q) (p_indices : option (list nat)) (ndensity : option Q)
+         (a b c d : Q) (handle_edge : bool) (max_rel_ndensity : Q)
+         (r_edges : list Q) (g : list (option Q)) (r_edges' : list Q) (g' : list (option Q)),
+  List.Forall (fun p => List.length p = 2%nat) feat -> 0 < dr -> 0 <= cutoff ->
+  (forall i, List.In i (gen_idx oracle fraction p_indices (List.length (List.filter (inside [(a, b); (c, d)]) feat))) ->
+             (i < List.length (List.filter (inside [(a, b); (c, d)]) feat))%nat) ->
+  py_pair_correlation_2d (PairCorrI arc pi_q oracle scale_sqrt) feat cutoff fraction dr p_indices ndensity
+                         (Some (a, b, c, d)) handle_edge max_rel_ndensity = Ok (r_edges, g) ->
+  py_pair_correlation_2d (PairCorrI arc pi_q oracle scale_sqrt) (List.map (shift [tx; ty]) feat) cutoff fraction dr
+                         p_indices ndensity (Some (a + tx, b + tx, c + ty, d + ty)) handle_edge max_rel_ndensity
+    = Ok (r_edges', g') ->
+  r_edges' = r_edges /\ g' = g.
+Proof. exact py_gr_2d_translation. Qed.
+Print Assumptions C19_gen_gr_2d_translation.
+
+Theorem C19_gen_gr_3d_translation :
+  forall (arc : Q -> list Q -> option Q) (pi_q : Q) (oracle : Z -> Z -> Z -> list nat) (scale_sqrt : Q -> Q -> option Q)
+         (tx ty tz : Q) (feat : list qpt) (cutoff fraction dr : Q) (p_indices : option (list nat)) (ndensity : option Q)
+         (a b c d e f : Q) (handle_edge : bool) (max_rel_ndensity : Q)
+         (r_edges : list Q) (g : list (option Q)) (r_edges' : list Q) (g' : list (option Q)),
+  List.Forall (fun p => List.length p = 3%nat) feat -> 0 < dr -> 0 <= cutoff ->
+  (forall i, List.In i (gen_idx oracle fraction p_indices
+                          (List.length (List.filter (inside [(a, b); (c, d); (e, f)]) feat))) ->
+             (i < List.length (List.filter (inside [(a, b); (c, d); (e, f)]) feat))%nat) ->
+  py_pair_correlation_3d (PairCorrI arc pi_q oracle scale_sqrt) feat cutoff fraction dr p_indices ndensity
+                         (Some (a, b, c, d, e, f)) handle_edge max_rel_ndensity = Ok (r_edges, g) ->
+  py_pair_correlation_3d (PairCorrI arc pi_q oracle scale_sqrt) (List.map (shift [tx; ty; tz]) feat) cutoff fraction dr
+                         p_indices ndensity (Some (a + tx, b + tx, c + ty, d + ty, e + tz, f + tz)) handle_edge
+                         max_rel_ndensity = Ok (r_edges', g') ->
+  r_edges' = r_edges /\ g' = g.
+Proof. exact py_gr_3d_translation. Qed.
+Print Assumptions C19_gen_gr_3d_translation.
+
+(* non-vacuity, by computation on the generated text: the three particles of C19_gr_sel_example, the last one
+   the only reference particle, the measure 1 + distance to the left wall: max_p_count = int(355/113 * 16 *
+   1/8 * 10) = 62, no guard fires, the generated function returns the edges 0..3 and the bins of
+   C19_gr_sel_example.  With max_rel_ndensity = 1/2 max_p_count = 3 = the number of neighbours found (the
+   particle itself included): RuntimeError; with 10^8: MemoryError.  Default p_indices, default bounding box,
+   3-D: the plain pair_correlation. *)
+Example C19_gen_gr_example :
+  py_pair_correlation_2d (PairCorrI (fun _ h => Some (1 + List.nth 0 h 0)) (355 # 113) (fun _ _ _ => nil) (fun _ _ => None))
+      [[0; 0]; [1; 0]; [2; 0]] 3 1 1 (Some (2%nat :: nil)) None (Some (0, 4, 0, 4)) true 10
+  = Ok ([0; 1; 2; 3], [Some 0; Some (8 # 3); Some (8 # 3)]) /\
+  py_pair_correlation_2d (PairCorrI (fun _ h => Some (1 + List.nth 0 h 0)) (355 # 113) (fun _ _ _ => nil) (fun _ _ => None))
+      [[0; 0]; [1; 0]; [2; 0]] 3 1 1 (Some (2%nat :: nil)) None (Some (0, 4, 0, 4)) true (1 # 2)
+  = Raise RuntimeError /\
+  py_pair_correlation_2d (PairCorrI (fun _ h => Some (1 + List.nth 0 h 0)) (355 # 113) (fun _ _ _ => nil) (fun _ _ => None))
+      [[0; 0]; [1; 0]; [2; 0]] 3 1 1 (Some (2%nat :: nil)) None (Some (0, 4, 0, 4)) true 100000000
+  = Raise MemoryError /\
+  (exists e g, py_pair_correlation_3d (PairCorrI (fun _ _ => Some 1) (355 # 113) (fun _ _ _ => nil) (fun _ _ => None))
+      [[0; 0; 0]; [1; 0; 2]; [2; 4; 1]] 3 1 1 None None None true 10 = Ok (e, g) /\
+    g = pair_correlation (fun _ _ => Some 1) 3 None [[0; 0; 0]; [1; 0; 2]; [2; 4; 1]] None 3 1).
+Proof.
+  split; [vm_compute; reflexivity|]. split; [vm_compute; reflexivity|]. split; [vm_compute; reflexivity|].
+  eexists; eexists; split; [vm_compute; reflexivity|vm_compute; reflexivity].
+Qed.
